@@ -86,6 +86,7 @@ fn stress_strategy(tier: Tier) -> BoxedStrategy<CbcCase> {
                 classifier_first: false,
                 listeners: false,
                 via_fallback: false,
+                thr100: None,
             },
             fallback,
             clones: 1,
@@ -254,6 +255,7 @@ fn small_config() -> BoxedStrategy<CbConfig> {
                 classifier_first: false,
                 listeners,
                 via_fallback: false,
+                thr100: None,
             },
         )
         .boxed()
@@ -359,6 +361,7 @@ fn case_strategy(tier: Tier) -> BoxedStrategy<CbcCase> {
                 classifier_first: false,
                 listeners: false,
                 via_fallback: false,
+                thr100: None,
             },
             fallback,
             clones: 3,
